@@ -77,6 +77,8 @@ pub enum Cert {
     Forged,
     /// trusted certificate A with one signature bit flipped (same subject, same key)
     TamperedA,
+    /// Ed25519 whose raw public key starts with the byte 0xFF (key + 1 carries into the second byte)
+    Ed25519FF,
     /// certificates derived from a valid one by DER surgery (signature no longer valid: only usable with
     /// certificate checking off); index into ODD_CERTS
     Odd(u8),
@@ -110,6 +112,7 @@ impl Cert {
             Cert::ChainUntrusted => ("uleaf.cert.pem", "uleaf.key.pem"),
             Cert::Forged => ("forged.cert.pem", "forged.key.pem"),
             Cert::TamperedA => ("tamper.cert.pem", "a.key.pem"),
+            Cert::Ed25519FF => ("edff.cert.pem", "edff.key.pem"),
             Cert::Odd(_) => unreachable!(),
         };
         (c.to_string(), k.to_string())
